@@ -1,5 +1,5 @@
 """C12 the grammar front end accepts any text without panicking and with valid spans."""
-from .. import panicrules, lexrules
+from .. import shape, panicrules, lexrules
 
 LEVEL = "other"
 EXHAUSTIVE = True
@@ -15,6 +15,7 @@ def run(ctx, rep):
     n = panicrules.evaluate(ctx, rep, ["C12"])
     rep.floor("PANIC", 35, "audited panic sites")
     panicrules.span_rule(ctx, rep)
+    shape.shape_rule(ctx, rep, panicrules.zones_of)
     panicrules.gate_rule(ctx, rep)
     lexrules.lexbal_rule(ctx, rep, esc=False)
     panicrules.nth_rule(ctx, rep)
